@@ -151,6 +151,8 @@ class FieldBase(metaclass=ABCMeta):
                 raise ValueError(msg)
             # actually set the data
             self.__data_full = value
+            # cached helpers (e.g., interpolators) still refer to the previous array
+            self.__dict__.pop("_cache_methods", None)
 
         else:
             msg = f"Cannot set field values to {value}"
